@@ -154,7 +154,7 @@ EXPORT errno_t _wcsnatcmp_s_chk(const wchar_t *dest, rsize_t dmax,
         return RCNEGATE(ESZEROL);
     }
     if (destbos == BOS_UNKNOWN) {
-        CHK_DMAX_MAX("wcsnatcmp_s", RSIZE_MAX_STR)
+        CHK_DMAX_MAX("wcsnatcmp_s", RSIZE_MAX_WSTR)
         BND_CHK_PTR_BOUNDS(dest, destsz);
     } else {
         CHK_DESTW_OVR("wcsnatcmp_s", destsz, destbos)
